@@ -5,7 +5,8 @@ Ops: [0] LockRead  [1] LockWrite  [2,it] Begin  [3,it] Next  [4,it] Deref  [5,it
      [12,it] BeginFail  [13,v] PushFail  [14,it] EraseFail: the same calls with the first allocation made inside
      them failing (std::bad_alloc from the allocator, K_THROW 2 ... K_CATCH 0): registration record, list node,
      erase's reclamation record
-cfg = [unfixed] (always 0 in the check: the model describes the repaired source).
+cfg = [unfixed, element kind] (unfixed always 0 in the check: the model describes the repaired source; element kind
+1 = trivially destructible element type in the driver, same events: the model ignores it).
 Values pushed in one case are pairwise distinct, so that the monitors can name elements.  A NEGATIVE value makes
 the element constructor throw inside allocator_traits::construct (K_CALL 1, K_THROW 0, ... K_CATCH 0): the
 storage is deallocated without ever being constructed or destroyed and the list is unchanged.
@@ -152,7 +153,7 @@ def _race3(rng, vals):
     for _ in range(rng.range(2, 7)):
         t = rng.weighted([(3, 0), (4, 1), (2, 2)])
         sched += [(t, rng.weighted(list(CW)))] * rng.range(3, 34)
-    return {'cfg': [0], 'progs': progs, 'sched': sched}
+    return {'cfg': [0, 1 if rng.chance(1, 3) else 0], 'progs': progs, 'sched': sched}
 
 
 def _first2(rng, vals):
@@ -182,7 +183,7 @@ def _first2(rng, vals):
     sched += [(0, 0)] * rng.range(2, 20)                                                # the paused reader goes on
     for _ in range(rng.range(1, 5)):
         sched += [(rng.below(3), rng.weighted(list(CW)))] * rng.range(3, 30)
-    return {'cfg': [0], 'progs': progs, 'sched': sched}
+    return {'cfg': [0, 1 if rng.chance(1, 3) else 0], 'progs': progs, 'sched': sched}
 
 
 def gen(rng, tier, spec):
@@ -216,7 +217,7 @@ def gen(rng, tier, spec):
         # two parked threads: a reader inside its session and a releaser inside its scan / reclaim loop
         a, b = rng.below(nt), rng.below(nt)
         sched = [(a, 0)] * rng.range(1, 20) + [(b, 0)] * rng.range(1, 40) + R.sched_random(rng, nt, rng.range(0, 100), CW)
-    return {'cfg': [0], 'progs': progs, 'sched': prefix + sched}
+    return {'cfg': [0, 1 if rng.chance(1, 3) else 0], 'progs': progs, 'sched': prefix + sched}
 
 
 # ----------------------------------------------------------------------------- trace reading
@@ -502,5 +503,51 @@ def mon_read_spins(case, lines):
     return None
 
 
+def mon_mo_weakened(case, lines):
+    """C07 / C12 / C05: every atomic operation of the list is seq_cst except the three sites of RcuReadProofs.mo_table:
+    the registration's load of m_zombie_head (a guess the CAS validates), the store to the still private record's next
+    before that CAS, and push_back's load of m_tail under the write mutex (RcuViews.rcu_tail_relaxed_ok).  Sites are
+    identified by position: registration = allocate(record) + construct outside the write mutex, then load, store to
+    that record, CAS; push_back = lock, allocate(node), construct, then the first load."""
+    LDP, STP = K['LOAD'] + PTR, K['STORE'] + PTR
+    for op in _ops(case, lines):
+        locked, last_alloc, pending, first = False, None, None, False
+        backpush = op['op'][0] in (PUSHB, EMPB, PUSHFAIL)
+        for i, k, o, v, m in op['evs']:
+            if k == K['LOCK']:
+                locked = True
+            elif k == K['ALLOC']:
+                last_alloc = (o, v, locked)
+            elif k == K['CONSTRUCT'] and last_alloc and last_alloc[0] == o:
+                if last_alloc[1] == 2 and not last_alloc[2]:
+                    pending, first = ('reg', o), True
+                elif last_alloc[1] == 1 and last_alloc[2] and backpush:
+                    pending, first = ('tail', o), True
+            if m is None or m < 0:
+                continue
+            allowed = False
+            if pending and pending[0] == 'reg':
+                if k == LDP and first:
+                    allowed = True
+                elif k == STP and o == pending[1]:
+                    allowed = True
+                elif k % PTR == K['CAS_OK']:
+                    pending = None
+            elif pending and pending[0] == 'tail':
+                if k == LDP and first:
+                    allowed = True
+                pending = None
+            first = False
+            if m != 5 and not allowed:
+                from events import pretty
+                return ('thread %d, operation %s: "%s" at trace line %d is weaker than seq_cst.  Only the registration\'s load of '
+                        'm_zombie_head, the store to the still private record\'s next and push_back\'s load of m_tail may be relaxed '
+                        '(RcuReadProofs.mo_table); every store / CAS that publishes a pointer lock-free readers follow (node next / back, '
+                        'm_head, m_tail, the m_zombie_head CAS, owner.store) must release, or a reader reaches the object without '
+                        'happening-after its construction (RcuViews.rcu_log_publication, refuted for weakened orders by '
+                        'RcuViews.rcu_relaxed_cas_refuted / rcu_relaxed_owner_store_refuted)' % (op['t'], op['op'], pretty([op['t'], k, o, v, m]), i))
+    return None
+
+
 MONITORS = {'read_spins': mon_read_spins, 'fault': mon_fault, 'ledger': mon_ledger, 'contents': mon_contents, 'traversal': mon_traversal,
-            'read_mutex': mon_read_mutex, 'deadlock': mon_deadlock}
+            'read_mutex': mon_read_mutex, 'deadlock': mon_deadlock, 'mo_weakened': mon_mo_weakened}
